@@ -23,3 +23,6 @@ import TFV.Properties.Src.GrayKernels
 #print axioms TFV.Properties.Src.GrayKernels.C10_src_gray_roundtrip'
 #print axioms TFV.Properties.Src.GrayKernels.C10_src_decode_bin
 #print axioms TFV.Properties.Src.GrayKernels.C10_src_decode_gray
+#print axioms TFV.Properties.Src.GrayKernels.C10_src_int_to_bit
+#print axioms TFV.Properties.Src.GrayKernels.C10_src_int_roundtrip
+#print axioms TFV.Properties.Src.GrayKernels.C10_src_int_roundtrip_gray
